@@ -160,4 +160,145 @@ example : layoutModel [] .none (.num 0) .d 0 = [] ∧
 example : String.ofList (layoutModel ['#'] .none .none .x 255) = "0xff" ∧
     view (doscan "%Zx%n".toList (layoutModel ['#'] .none .none .x 255)) = some (1, [0, 1], "xff") := by decide +kernel
 
+
+/-! ## The field reader -/
+
+/-- the digits of a `%Z` field with a fixed base: cut the input at the width, drop an optional sign, take the LONGEST
+    run of digits of the base -/
+def fieldDigits (p : ScanParams) (inp : List Char) : List Char :=
+  ((inp.take (scanWidth p)).drop (signLen inp)).takeWhile (isDigitIn p.base)
+
+/-- `scan_field_Z_fixed` (items (a) and (b) for `%Zd %Zu %Zo %Zx %ZX`, every width, every non-empty input — `gmpscan` is
+    entered with white space already skipped and returns −2 = EOF on empty input):
+    let `k` = 1 if the input starts with `-` or `+`, and `ds = fieldDigits p inp` the LONGEST run of digits of the base
+    after that sign inside the first `width` characters (all of the input — up to INT_MAX−1 — without a width).  Then
+    * no digit: the field is invalid (−1; the sign stays consumed — only one character can be pushed back);
+    * otherwise the count of characters is `k + |ds|`, the value assigned is ±(value of `ds` in the base) — the value of
+      the longest valid prefix under the width limit —, and nothing is assigned under `*`;
+    * the input left is exactly the input without those `k + |ds|` characters: the consumed characters are a prefix of
+      the input, and the one character looked at beyond the field is pushed back. -/
+theorem scan_field_Z_fixed (p : ScanParams) (hty : p.type = 'Z') (hb : p.base = 8 ∨ p.base = 10 ∨ p.base = 16)
+    (inp : List Char) (hne : inp ≠ []) :
+    (gmpscan p inp).rest = inp.drop (signLen inp + (fieldDigits p inp).length) ∧
+    (fieldDigits p inp = [] → (gmpscan p inp).ret = -1 ∧ (gmpscan p inp).val = .none) ∧
+    (fieldDigits p inp ≠ [] → (gmpscan p inp).ret = ((signLen inp + (fieldDigits p inp).length : Nat) : Int) ∧
+      (gmpscan p inp).val = if p.ignore then .none
+              else .z (if inp.head? = some '-' then -(strVal p.base (fieldDigits p inp) : Int)
+                       else (strVal p.base (fieldDigits p inp) : Int))) := by
+  have hb0 : p.base ≠ 0 := by omega
+  have hr := gmpscan_Z_fixed p hty hb0 inp hne
+  have hds : ((inp.drop (signLen inp)).take (scanWidth p - signLen inp)).takeWhile (isDigitIn p.base) = fieldDigits p inp := by
+    unfold fieldDigits; rw [List.drop_take]
+  rw [hds] at hr
+  have hall : ∀ c ∈ fieldDigits p inp, isDigitIn p.base c = true := by
+    unfold fieldDigits
+    generalize List.drop (signLen inp) (List.take (scanWidth p) inp) = l
+    induction l with
+    | nil => simp
+    | cons x xs ih =>
+      rw [List.takeWhile_cons]; split
+      · rename_i hx; intro c hc
+        rcases List.mem_cons.mp hc with h | h
+        · rw [h]; exact hx
+        · exact ih c h
+      · simp
+  generalize fieldDigits p inp = ds at *
+  refine ⟨by rw [hr], fun h => ?_, fun h => ?_⟩
+  · rw [hr, h]; simp
+  · have hemp : ds.isEmpty = false := by cases ds <;> simp_all
+    have hst : signStore inp = (if (decide (inp.head? = some '-')) = true then ['-'] else []) := by
+      cases inp with
+      | nil => exact absurd rfl hne
+      | cons c t => by_cases hc : c = '-' <;> simp [signStore, hc]
+    rw [hr]
+    simp only [hemp, Bool.false_eq_true, if_false, false_or, true_and, hst]
+    rw [setStr_digits p.base hb _ ds h hall]
+    by_cases hi : p.ignore = true
+    · simp [hi]
+    · simp [hi, Option.elim]
+
+-- non-vacuity: a width that cuts the digits, a sign eaten by an invalid field, a sign alone under width 1
+example : (gmpscan { base := 10, type := 'Z', width := 3 } "-1234".toList).ret = 3 ∧
+    (gmpscan { base := 10, type := 'Z', width := 3 } "-1234".toList).rest = "34".toList := by decide +kernel
+example : (gmpscan { base := 10, type := 'Z' } "-x".toList).ret = -1 ∧
+    (gmpscan { base := 10, type := 'Z' } "-x".toList).rest = "x".toList := by decide +kernel
+example : (gmpscan { base := 16, type := 'Z', width := 1 } "+7".toList).ret = -1 ∧
+    (gmpscan { base := 16, type := 'Z', width := 1 } "+7".toList).rest = "7".toList := by decide +kernel
+
+
+/-! ## The count returned -/
+
+theorem gmpscan_eof (p : ScanParams) (inp : List Char) : (gmpscan p inp).ret = -2 ↔ inp = [] := by
+  cases inp with
+  | nil => simp [gmpscan]
+  | cons c t =>
+    simp only [gmpscan, reduceCtorEq, iff_false]
+    split <;> omega
+
+theorem scanRun_star (fs : List Char) (sp : SP) (st : SS) (hn : sp.inNum = false) :
+    scanRun ('*' :: fs) (.spec sp) st = scanRun fs (.spec { sp with p := { sp.p with ignore := true } }) st := by
+  rw [scanRun]; simp (decide := true) [hn]
+
+/-- `scan_count_single_partial` (item (c) for one MPIR conversion, `T` = Z or Q, any of d u i o x X, with or without
+    assignment suppression `*`, followed by `%n`): the value returned by gmp_sscanf/gmp_fscanf is
+    * EOF (−1) exactly when the input ended (after optional white space) before the field began;
+    * otherwise the number of assigned fields: 1 exactly when the field was valid and not suppressed; 0 for an invalid
+      field, and 0 for a valid suppressed one (`%*Z` is not counted), in which case `%n` still reports the characters
+      consumed and nothing else is stored.
+    PARTIAL: the full statement quantifies over every format string (several conversions, literals and white-space
+    directives between them: the count is the number of assigned fields so far, EOF only if that number is 0 when the
+    input ends); that general form is exercised by the correspondence run (ops gmp_sscanf/gmp_fscanf on generated
+    multi-conversion formats), not proved. -/
+theorem scan_count_single_partial (T c : Char) (b : Nat) (hT : T = 'Z' ∨ T = 'Q') (hc : ConvChar c b) (star : Bool)
+    (inp : List Char) :
+    ∃ r, doscan ('%' :: ((if star then ['*'] else []) ++ [T, c, '%', 'n'])) inp = some r ∧
+      (r.fields = -1 ↔ (skipWhite inp).2 = []) ∧
+      (r.fields = 1 ↔ star = false ∧ 0 ≤ (gmpscan { base := b, type := T, ignore := star } (skipWhite inp).2).ret) ∧
+      (r.fields = -1 ∨ r.fields = 0 ∨ r.fields = 1) ∧
+      (star = true → 0 ≤ (gmpscan { base := b, type := T, ignore := star } (skipWhite inp).2).ret →
+        r.fields = 0 ∧ r.outs = [.int (((skipWhite inp).1 +
+          (gmpscan { base := b, type := T, ignore := star } (skipWhite inp).2).ret.toNat : Nat) : Int)]) := by
+  have hret : ∀ p i, (gmpscan p i).ret = -2 ∨ (gmpscan p i).ret = -1 ∨ 0 ≤ (gmpscan p i).ret := by
+    intro p i; cases i with
+    | nil => left; simp [gmpscan]
+    | cons c t => simp only [gmpscan]; split <;> omega
+  cases star with
+  | false =>
+    simp only [Bool.false_eq_true, if_false, List.nil_append]
+    rw [doscan_Tn T c b hT hc inp]
+    have he := gmpscan_eof { base := b, type := T } (skipWhite inp).2
+    rcases hret { base := b, type := T } (skipWhite inp).2 with h | h | h
+    · exact ⟨_, by rw [if_pos h], by simpa using he.mp h, by simp [h], by simp, by simp⟩
+    · have h2 : ¬ (gmpscan { base := b, type := T } (skipWhite inp).2).ret = -2 := by omega
+      refine ⟨_, by rw [if_neg h2, if_pos h], ?_, by simp [h], by simp, by simp⟩
+      simp only [show ¬ ((0 : Int) = -1) by omega, false_iff]; exact fun h3 => h2 (he.mpr h3)
+    · have h2 : ¬ (gmpscan { base := b, type := T } (skipWhite inp).2).ret = -2 := by omega
+      have h1 : ¬ (gmpscan { base := b, type := T } (skipWhite inp).2).ret = -1 := by omega
+      refine ⟨_, by rw [if_neg h2, if_neg h1], ?_, by simp [h], by simp, by simp⟩
+      simp only [show ¬ ((1 : Int) = -1) by omega, false_iff]; exact fun h3 => h2 (he.mpr h3)
+  | true =>
+    simp only [if_true, List.cons_append, List.nil_append]
+    unfold doscan
+    rw [scanRun_pct, scanRun_star _ _ _ rfl, scanRun_type T hT _ _ _ rfl, scanRun_conv c b hc _ _ _ rfl (by simpa using hT)]
+    simp only [doNumeric]
+    have he := gmpscan_eof { base := b, type := T, ignore := true } (skipWhite inp).2
+    generalize hr : gmpscan { base := b, type := T, ignore := true } (skipWhite inp).2 = r at *
+    rcases hret { base := b, type := T, ignore := true } (skipWhite inp).2 with h | h | h <;> rw [hr] at h
+    · refine ⟨{ fields := -1, outs := [], rest := (skipWhite inp).2 }, by simp [h, eofS], ?_, by simp, by simp, by omega⟩
+      simpa using he.mp h
+    · have h2 : ¬ r.ret = -2 := by omega
+      refine ⟨{ fields := 0, outs := [], rest := r.rest }, by simp [h, finishS], ?_, by simp, by simp, by omega⟩
+      simp only [show ¬ ((0 : Int) = -1) by omega, false_iff]; exact fun h3 => h2 (he.mpr h3)
+    · have h2 : ¬ r.ret = -2 := by omega
+      have h1 : ¬ r.ret = -1 := by omega
+      refine ⟨{ fields := 0, outs := [.int (((skipWhite inp).1 + r.ret.toNat : Nat) : Int)], rest := r.rest },
+        by simp [h2, h1, scanRun_n, finishS], ?_, by simp, by simp, by simp⟩
+      simp only [show ¬ ((0 : Int) = -1) by omega, false_iff]; exact fun h3 => h2 (he.mpr h3)
+
+-- non-vacuity: EOF before the field, invalid field, valid field, suppressed field with %n
+example : view (doscan "%Zd%n".toList "  ".toList) = some (-1, [], "") ∧
+    view (doscan "%Zd%n".toList " x".toList) = some (0, [], "x") ∧
+    view (doscan "%Zd%n".toList " 12x".toList) = some (1, [12, 3], "x") ∧
+    view (doscan "%*Zd%n".toList " 12x".toList) = some (0, [3], "x") := by decide +kernel
+
 end Mpir.Scanf
